@@ -26,6 +26,7 @@ structure Obs where
   loads : List Nat := []
   writes : List String := []
   drivers : List String := []
+  panics : List String := []
   w : List String := []
   deriving BEq, Repr
 
@@ -47,7 +48,7 @@ def parseObs (ev : Json) : Except String Obs := do
          more := boolFieldD ev "more", v := natField ev "v", found := boolFieldD ev "found",
          res := optStrField ev "res", opDone := optStrField ev "opDone", loads := ← natArr ev "loads",
          writes := ← strArrField ev "writes", drivers := ← strArrField ev "drivers",
-         w := ← strArrField ev "w" }
+         panics := ← strArrField ev "panics", w := ← strArrField ev "w" }
 
 def isOpName (a : String) : Bool :=
   a ∈ ["create", "start", "stop", "reset", "sync", "mgrStop", "mgrStart"]
@@ -73,22 +74,21 @@ def labelOf (ev : Json) (coin : Bool) : Except String Label := do
     else throw s!"fetch: bad r {r}"
   | "accept" =>
     if r = "ok" then pure (.accept .ok) else if r = "fail" then pure (.accept .fail)
-    else if r = "lost" then pure (.accept .lost) else throw s!"accept: bad r {r}"
+    else if r = "lost" then pure (.accept .lost)
+    else if r = "rej" then pure (.accept (.reject (natField ev "n"))) else throw s!"accept: bad r {r}"
   | "persist" =>
     if r = "ok" then pure (.persist (natField ev "i") true coin)
     else if r = "fail" then pure (.persist (natField ev "i") false coin)
     else throw s!"persist: bad r {r}"
   | _ => throw s!"unknown action {a}"
 
-def idsOf (lo hi : Nat) : List Nat := List.range' (lo + 1) (hi - lo)
-
 /-- Calls blocked at a gate in state `s`, in the harness' canonical order. -/
-def waiting (s : State) : List String :=
+def waiting (c : Cfg) (s : State) : List String :=
   (match s.handler with
    | some h =>
      match h.pc with
      | .atFetch => ["F"]
-     | .exporting lo hi _ => [s!"A:{lo + 1}-{hi}"]
+     | .exporting _ hi _ pos _ true => [s!"A:{pos + 1}-{chunkEnd c pos hi}"]
      | _ => []
    | none => []) ++ (s.orphans ++ s.cur.toList).map fun v => s!"P:{v}"
 
@@ -96,12 +96,17 @@ def resetWrite : String := "update:enabled=true;last_log_id=<nil>;"
 
 /-- What the model says the harness observes for label `l` (action name `a`) taken in `s`. -/
 def modelObs (c : Cfg) (s : State) (a : String) (l : Label) : Option State → Obs
-  | none => { skipped := true, w := waiting s }
+  | none => { skipped := true, w := waiting c s }
   | some s' =>
     let started := s'.gen > s.gen
     let exited := s.handler.isSome && (s'.handler.isNone || started)
+    -- `Batcher.Accept` skips the operations whose `Send` was cancelled (fixed in /repo: it
+    -- used to call `Wait` on a nil operation → nil dereference in the export goroutine when
+    -- the handler abandoned a multi-chunk export). The model predicts no panic, ever; the
+    -- harness reports a recovered panic of the real `Batcher.Accept` as an observation.
     let base : Obs :=
-      { w := waiting s',
+      { w := waiting c s',
+        panics := [],
         opDone := if !isOpName a && s.pending.isSome && s'.pending.isNone then "ok" else "",
         drivers := (if exited then ["stop"] else []) ++ (if started then ["new", "start"] else []),
         writes := (if a = "create" then ["create"] else []) ++
@@ -129,7 +134,7 @@ def modelObs (c : Cfg) (s : State) (a : String) (l : Label) : Option State → O
       match s.handler with
       | some h =>
         match h.pc with
-        | .exporting lo hi _ => { base with ids := idsOf lo hi }
+        | .exporting _ hi _ pos _ _ => { base with ids := idsOf pos (chunkEnd c pos hi) }
         | _ => base
       | none => base
     | .persist i ok _ =>
@@ -149,8 +154,12 @@ structure RealSt where
   staleLanded : Bool := false
   /-- a `ResetPipeline` call is waiting for the handler -/
   pendingReset : Bool := false
-  /-- first failing predicate, and whether a stale write had landed before -/
-  fail : Option (String × Bool) := none
+  /-- ids the exporter acknowledged item by item since the last reset -/
+  acked : List Nat := []
+  /-- first failing predicate and its cause ("stale": a stale state write had landed
+      since the last reset; "chunk": a later chunk of a page whose earlier chunk
+      failed; "panic"; "": none of these) -/
+  fails : List (String × String) := []
   deliveries : Nat := 0
   disturbances : Nat := 0
   tags : List String := []
@@ -158,10 +167,23 @@ structure RealSt where
 def RealSt.tag (r : RealSt) (t : String) : RealSt :=
   if r.tags.contains t then r else { r with tags := t :: r.tags }
 
-def RealSt.violate (r : RealSt) (name : String) : RealSt :=
-  match r.fail with
-  | some _ => r
-  | none => { r with fail := some (name, r.staleLanded) }
+def RealSt.violate (r : RealSt) (name : String) (cause : String := "") : RealSt :=
+  let f := (name, if cause ≠ "" then cause else if r.staleLanded then "stale" else "")
+  if r.fails.contains f then r else { r with fails := r.fails ++ [f] }
+
+/-- The failure reported for the case: a failure without a recognised cause wins
+    (known findings must not mask anything else), otherwise the first one. -/
+def RealSt.fail (r : RealSt) : Option (String × String) :=
+  match r.fails.find? (fun f => f.2 = "") with
+  | some f => some f
+  | none => r.fails.head?
+
+/-- largest `p` such that every id `1..p` was acknowledged -/
+def RealSt.ackPrefix (r : RealSt) : Nat := Id.run do
+  let mut p := 0
+  for _ in [0:r.nLogs] do
+    if r.acked.contains (p + 1) then p := p + 1
+  return p
 
 def cursorOf (q : String) : Option Nat :=
   if q = "none" then some 0
@@ -170,7 +192,7 @@ def cursorOf (q : String) : Option Nat :=
 
 def countP (w : List String) : Nat := (w.filter (·.startsWith "P:")).length
 
-def realStep (r : RealSt) (a rr : String) (i n : Nat) (o : Obs) : RealSt := Id.run do
+def realStep (r : RealSt) (a rr : String) (i n : Nat) (o : Obs) (afterFailedChunk : Bool) : RealSt := Id.run do
   if o.skipped then return r.tag "skipped"
   let mut r := r
   if a = "append" then r := { r with nLogs := r.nLogs + n }
@@ -189,24 +211,32 @@ def realStep (r : RealSt) (a rr : String) (i n : Nat) (o : Obs) : RealSt := Id.r
       if isStale then r := { (r.tag "stale-write-landed") with staleLanded := true }
       if o.opDone ≠ "" then r := r.tag "stop-vs-timer0-race"
   if a = "accept" then
-    if rr = "ok" || rr = "lost" then
+    if rr = "ok" || rr = "lost" || rr = "rej" then
       match o.ids with
       | [] => r := r.violate "in_order_no_gaps"
       | first :: _ =>
         let last := first + o.ids.length - 1
-        if o.ids ≠ List.range' first o.ids.length || first = 0 || last > r.nLogs || first > r.delivHW + 1 then
+        if o.ids ≠ List.range' first o.ids.length || first = 0 || last > r.nLogs then
           r := r.violate "in_order_no_gaps"
+        if first > r.delivHW + 1 then
+          r := r.violate "in_order_no_gaps" (if afterFailedChunk then "chunk" else "")
+          if afterFailedChunk then r := r.tag "later-chunk-after-failed-chunk"
         if first ≤ r.delivHW then r := r.tag "redelivery"
         r := { r with delivHW := max r.delivHW last, deliveries := r.deliveries + 1 }
-        if rr = "ok" then r := { r with ackHW := max r.ackHW last }
+        if rr = "ok" then r := { r with acked := o.ids ++ r.acked }
+        if rr = "rej" then r := { r with acked := o.ids.eraseIdx (n % o.ids.length) ++ r.acked }
     if rr = "fail" then r := { (r.tag "export-fail") with disturbances := r.disturbances + 1 }
     if rr = "lost" then r := { (r.tag "ack-lost") with disturbances := r.disturbances + 1 }
+    if rr = "rej" then r := { (r.tag "item-rejected") with disturbances := r.disturbances + 1 }
+    r := { r with ackHW := r.ackPrefix }
   if a = "fetch" then
     if rr ≠ "ok" then r := { (r.tag "fetch-err") with disturbances := r.disturbances + 1 }
     if o.more then r := r.tag "has-more"
     match cursorOf o.q with
     | none => r := r.violate "query_shape"
     | some cur => if cur > r.ackHW then r := r.violate "cursor_le_acked"
+  if !o.panics.isEmpty then
+    r := (r.violate "no_panic" "panic").tag "batcher-panic"
   if r.persisted > r.ackHW then r := r.violate "persisted_le_acked"
   -- a reset that completes in this step does so after the gated call of the step (the
   -- handler notices the stop only when that call returned). The reset is recognised by the
@@ -224,13 +254,15 @@ def realStep (r : RealSt) (a rr : String) (i n : Nat) (o : Obs) : RealSt := Id.r
             | none => pure ()
           | _ => pure ()
   if resetDone then
-    r := { r with ackHW := 0, delivHW := 0, staleLanded := false, stale := countP o.w }
+    r := { r with ackHW := 0, delivHW := 0, acked := [], staleLanded := false, stale := countP o.w }
     r := (r.tag "reset").tag (if countP o.w > 0 then "reset-with-write-in-flight" else "reset-quiet")
     r := { r with disturbances := r.disturbances + 1 }
   if r.persisted > r.ackHW then r := r.violate "persisted_le_acked"
   return r
 
 def raceSig : String := "C33:reset-race:stale-StorePipelineState-after-ResetPipeline"
+def chunkSig : String := "C33:batcher-continues-after-failed-chunk"
+
 
 def actionKey (j : Json) : String :=
   s!"{optStrField j "a"}/{natField j "n"}/{natField j "i"}/{optStrField j "r"}"
@@ -240,7 +272,7 @@ def handleRepl : Handler := fun inp out => do
   let drain := boolFieldD inp "drain"
   let script ← arrField inp "script"
   let trace ← arrField out "trace"
-  let c := Cfg.real ps
+  let c := Cfg.real ps (natField inp "mi")
   let mut s := State.init
   let mut r : RealSt := {}
   let mut agree := script.map actionKey == trace.map actionKey
@@ -260,7 +292,10 @@ def handleRepl : Handler := fun inp out => do
       agree := false
     modelTrace := modelTrace.push (Json.mkObj [("a", a), ("w", jStrs m.w), ("res", m.res),
       ("ids", Json.arr (m.ids.map (fun (x : Nat) => (x : Json))).toArray), ("v", m.v), ("q", m.q)])
-    r := realStep r a (optStrField ev "r") (natField ev "i") (natField ev "n") o
+    let afterFailed := match s.handler with
+      | some h => (match h.pc with | .exporting _ _ _ _ bad _ => bad | _ => false)
+      | none => false
+    r := realStep r a (optStrField ev "r") (natField ev "i") (natField ev "n") o afterFailed
     match res with
     | some s' => s := s'
     | none => pure ()
@@ -270,9 +305,13 @@ def handleRepl : Handler := fun inp out => do
     | none => pure ()
     lastDone := a = "fetch" && optStrField ev "r" = "ok" && !o.skipped && o.ids.isEmpty && countP o.w = 0
     k := k + 1
+  -- the exporter-side truth (item-level acknowledgements) must coincide too
+  if agree && !(List.range (r.nLogs + 2)).all (fun k => s.acked.contains k == r.acked.contains k) then
+    agree := false
+    note := s!"acknowledged ids differ: model {s.acked} real {r.acked}"
   if drain then
-    if !(lastDone && r.delivHW = r.nLogs) then r := r.violate "at_least_once"
-    if s.delivHW ≠ s.nLogs then propModel := false
+    if !(lastDone && r.ackPrefix = r.nLogs) then r := r.violate "at_least_once"
+    if s.ackHW ≠ s.nLogs then propModel := false
     r := r.tag "drained"
   if optStrField out "panic" ≠ "" || natField out "leak" ≠ 0 then
     agree := false
@@ -281,13 +320,18 @@ def handleRepl : Handler := fun inp out => do
   let sig :=
     match r.fail with
     | none => ""
-    | some (name, stale) => if stale && agree then raceSig else s!"C33:{name}"
+    | some (name, cause) =>
+      if !agree then s!"C33:{name}"
+      else if cause = "stale" then raceSig
+      else if cause = "chunk" && name = "in_order_no_gaps" then chunkSig
+      else s!"C33:{name}"
   r := match r.fail with
-    | some (name, true) => r.tag ("race:" ++ name)
+    | some (name, "stale") => r.tag ("race:" ++ name)
     | _ => r
   r := r.tag s!"ps={ps}"
+  r := r.tag s!"maxItems={natField inp "mi"}"
   let failNote := match r.fail with
-    | some (name, stale) => s!"C33 predicate {name} fails on the real trace (stale write landed: {stale})"
+    | some (name, cause) => s!"C33 predicate {name} fails on the real trace (cause: {cause})"
     | none => ""
   pure { model := Json.arr modelTrace, agree, prop, propModel,
          nontrivial := r.deliveries ≥ 2 && r.disturbances ≥ 1,
